@@ -173,14 +173,22 @@ def stmt_end(text, idx, limit=None):
 
 
 def stmt_start(text, idx, floor=0):
-    """Index of the first non-space char of the statement containing idx:
-    scans backwards (on masked text) to the previous `;`, `{` or `}` at the same depth."""
+    """Index of the first non-space char of the statement containing idx: scans backwards (on masked text) to the
+    previous `;`, an enclosing `{`, or a `}` that ends a block statement (a `}` followed by `.`, `?`, `)`, `,`, `;`,
+    an operator or `else` belongs to the current expression and is skipped with its block)."""
     m = mask(text)
     depth = 0
     i = idx - 1
     while i >= floor:
         ch = m[i]
         if ch in CLOSE:
+            if depth == 0 and ch == "}":
+                j = i + 1
+                while j < len(m) and m[j] in " \t\r\n":
+                    j += 1
+                nxt = m[j:j + 4]
+                if not (nxt[:1] in ".?),;=+-*/|&<>" or nxt.startswith("else") or nxt.startswith("as ")):
+                    break
             depth += 1
         elif ch in OPEN:
             if depth == 0:
